@@ -1632,12 +1632,13 @@ class Executor:
             f"Virtual qubit address {virtual_address} will now be mapped to "
             f"physical address {physical_address}"
         )
-        self._used_physical_qubit_addresses.add(physical_address)
         self._allocate_physical_qubit(
             subroutine_id=subroutine_id,
             virtual_address=virtual_address,
             physical_address=physical_address,
         )
+        # Only mark the physical qubit as used once it is actually mapped
+        self._used_physical_qubit_addresses.add(physical_address)
 
         return True
 
